@@ -47,6 +47,7 @@ type Profile struct {
 	Clock                                                    bool // clock jumps are part of the schedule
 	WBatch, WSub, WSeq, WMerge                               int  // weights of the extra op kinds
 	Managed                                                  bool // managed mode: caller-chosen timestamps
+	TsNarrow                                                 bool // managed mode: read/commit/discard timestamps from 1..12 so that they collide and touch
 	WDiscardTs, WMBatch                                      int
 	InMemory                                                 bool
 	CloseInflight                                            bool // Close starts while CommitWith callbacks are still pending
@@ -174,6 +175,9 @@ func genSched(t *rapid.T, maxDec int) Sched {
 		s.TailSeed = rapid.Uint64Range(1, 1<<32).Draw(t, "tail_seed")
 		s.Preempt = rapid.SampledFrom([]int{2, 10, 30, 60, 100}).Draw(t, "preempt")
 	}
+	// how many steps a runnable watermark goroutine may be passed over (lagging
+	// DoneUntil values are what conflict-log cleanup and discard decisions see)
+	s.WmLeash = rapid.SampledFrom([]int{0, 0, 12, 30}).Draw(t, "wm_leash")
 	return s
 }
 
@@ -254,7 +258,11 @@ func genClientN(t *rapid.T, p *Profile, cfg *Config, nkeys, maxOps, clientIdx in
 			rw := rapid.IntRange(0, 3).Draw(t, "rw") != 0
 			bop := Op{K: "begin", S: s, RW: rw}
 			if p.Managed {
-				bop.Ts = uint64(rapid.IntRange(1, 95).Draw(t, "read_ts"))
+				if p.TsNarrow {
+					bop.Ts = uint64(rapid.IntRange(1, 10).Draw(t, "read_ts_n"))
+				} else {
+					bop.Ts = uint64(rapid.IntRange(1, 95).Draw(t, "read_ts"))
+				}
 			}
 			ops = append(ops, bop)
 			if rw {
@@ -275,7 +283,11 @@ func genClientN(t *rapid.T, p *Profile, cfg *Config, nkeys, maxOps, clientIdx in
 			case x >= p.WDiscardTs+p.WMBatch+p.WGC+p.WDrop:
 				ops = append(ops, Op{K: "flatten", N: rapid.IntRange(1, 3).Draw(t, "flatten_workers")})
 			case x < p.WDiscardTs:
-				ops = append(ops, Op{K: "discard_ts", Ts: uint64(rapid.IntRange(1, 30).Draw(t, "discard_ts"))})
+				if p.TsNarrow {
+					ops = append(ops, Op{K: "discard_ts", Ts: uint64(rapid.IntRange(1, 10).Draw(t, "discard_ts_n"))})
+				} else {
+					ops = append(ops, Op{K: "discard_ts", Ts: uint64(rapid.IntRange(1, 30).Draw(t, "discard_ts"))})
+				}
 			case x < p.WDiscardTs+p.WMBatch:
 				nb := rapid.IntRange(1, 8).Draw(t, "mbatch_n")
 				var sub []Op
@@ -414,7 +426,11 @@ func genClientN(t *rapid.T, p *Profile, cfg *Config, nkeys, maxOps, clientIdx in
 		case "commit", "commitWith", "discard":
 			slots[s] = 0
 			if p.Managed {
-				op.Ts = uint64(rapid.IntRange(31, 90).Draw(t, "commit_ts"))
+				if p.TsNarrow {
+					op.Ts = uint64(rapid.IntRange(2, 12).Draw(t, "commit_ts_n"))
+				} else {
+					op.Ts = uint64(rapid.IntRange(31, 90).Draw(t, "commit_ts"))
+				}
 			}
 		}
 		ops = append(ops, op)
